@@ -82,6 +82,9 @@ func runC20(c *mon.Ctx) {
 	otherEncoding := false
 	for k := 0; k < n; k++ {
 		secret := r.Bytes(r.Range(1, 48))
+		if r.Chance(0.3) {
+			secret = r.Bytes(gen.Pick(r, []int{32, 64, 64, 65, 96, 128})) // ed25519 seeds / private keys, which is what servers pass
+		}
 		other := r.Bytes(len(secret))
 		if string(other) == string(secret) {
 			other[0] ^= 0x55 // a different secret, always
@@ -139,6 +142,20 @@ func runC20(c *mon.Ctx) {
 			opKeyExt := op
 			opKeyExt.ServerPrivateKey = append(append([]byte{}, secret...), 0)
 			reject("secret-extended", opKeyExt, tok)
+			// every byte of the secret matters: one flipped bit anywhere, and every proper prefix
+			for _, pos := range []int{0, len(secret) / 2, len(secret) - 1, r.Intn(len(secret))} {
+				o := op
+				o.ServerPrivateKey = append([]byte{}, secret...)
+				o.ServerPrivateKey[pos] ^= 1 << uint(r.Intn(8))
+				reject("secret-one-bit-off", o, tok)
+			}
+			if len(secret) > 1 {
+				o := op
+				o.ServerPrivateKey = secret[:len(secret)-1]
+				reject("secret-truncated", o, tok)
+				o.ServerPrivateKey = secret[:(len(secret)+1)/2]
+				reject("secret-first-half", o, tok)
+			}
 
 			m, bin, err := decodeMac(tok)
 			if err != nil {
